@@ -604,13 +604,15 @@ class Mutations:
                 # network architectures for different agents)
                 if eval_module[0].activation is None:
                     no_activation = True
-
-                eval_module = [self._permutate_activation(mod) for mod in eval_module]
+                else:
+                    eval_module = [
+                        self._permutate_activation(mod) for mod in eval_module
+                    ]
             else:
                 if eval_module.activation is None:
                     no_activation = True
-
-                eval_module = self._permutate_activation(eval_module)
+                else:
+                    eval_module = self._permutate_activation(eval_module)
 
             if no_activation:
                 warnings.warn(
